@@ -31,6 +31,8 @@ VERIFIER_TAIL = [
     ('append', b's1', 0, True, False, 's1'),
     ('append', b'd1', 1, True, False, 'd1'),
 ]
+# absorptions inside loops: the ones that share a loop in the released layout carry the same group
+LOOP_GROUPS = {b'G': 'G', b'Ci': 'Ci', b'vi - minimum_value': 'vi', b'L': 'round', b'R': 'round', b'e': 'round', b'd1': 'd1'}
 WEIGHT_LABEL = b'Bulletproofs+ verifier weights'
 WITNESS_LABEL = b'witness'
 NONCE_LABELS = {b'alpha', b'dL', b'dR', b'd', b'eta'}
@@ -218,6 +220,21 @@ def match_schedule(ctx, rule, body, role, table=None):
                                                                           short(e.data(), 120) if e.data() is not None else '-'), ctx.where(e.body, e.bb))
         if slot:
             slots.setdefault(slot, []).append(e)
+    if okall:
+        # which absorptions share a loop is part of the layout: `C_0 .. C_{m-1} v_0 .. v_{m-1}` and `C_0 v_0 C_1 v_1 ..` are the same
+        # sequence of (kind, label, depth) and different byte streams as soon as m > 1
+        for i in range(n - 1):
+            (k1, l1, d1_, _, _, _), (k2, l2, d2_, _, _, _) = table[i], table[i + 1]
+            if d1_ > 0 and d2_ > 0 and mine[i].loops and mine[i + 1].loops:
+                want_same = LOOP_GROUPS.get(l1) == LOOP_GROUPS.get(l2)
+                same = mine[i].loops[-1] == mine[i + 1].loops[-1]
+                key = '%s/%s/schedule/%02d-%s-%s/loop' % (rule, role, i + 1, k2, (l2 or b'?').decode('latin1'))
+                if same != want_same:
+                    okall = False
+                    rep.violation(rule, key, '%r and %r are absorbed %s; the released layout absorbs them %s' % (
+                        l1, l2, 'in the same loop (interleaved per element)' if same else 'in two loops one after the other',
+                        'in the same loop (interleaved per element)' if want_same else 'in two loops one after the other (all of the first, then all of the second)'),
+                        ctx.where(mine[i + 1].body, mine[i + 1].bb))
     if okall and len(got) < len(want):
         k, l, d, m, v, slot = table[len(got)]
         rep.violation(rule, '%s/%s/schedule/missing-%02d-%s-%s' % (rule, role, len(got), k, l.decode('latin1')),
